@@ -8,14 +8,216 @@ and explores the point-lookup descent as a state machine.  TLC emits the tile ta
 Binding: psi (lattice -> sphere, built from TLC's anchors and Def) is compared with the corners the real code
 reports through all four construction routes, in both coordinate systems; shared lattice points across tiles,
 levels and the fold must be the same sphere point; areas must add up.
+
+Areas below the enumerated depth: spec/ToastArea.tla.  TLC (R = 20 / 22) is handed offsets along the fold lines of the
+square (the level-1 cross and the boundary = the meridians lon 0 / 90 / 180 / 270, where a longitude has two names)
+and emits, per depth, the tiles within two tiles of those lines with their children, and for some of them the five
+generations below; it checks for each that the children's cells partition the parent's cell (T_Nest as arithmetic on
+rectangles, tied to the unit-square form by T_RectIsUnits / T_ChainIsUnits at small R).  The real toast_tile_area of
+the parts must add up to that of the whole, in both coordinate systems.
 """
+import json
+import os
+
 import numpy as np
 
-from lib import repo, lattice
+from lib import repo, lattice, tla
 from checks import toastlat
 
 TOL = 1e-9        # sphere points, spec-derived vs real (observed agreement ~1e-15)
 XTOL = 1e-12      # the same corner obtained through different routes / tiles
+
+# toast_tile_area takes each side of a tile out of an arccos, so the relative error of an area grows fourfold per level.
+# Measured on the unchanged code (80 000 tiles at depths 4..22, half of them next to the fold lines, both coordinate
+# systems): |sum of the four children - parent| / parent <= 0.94e-16 * 4^n for a parent at depth n, at every depth;
+# the sum of a whole generation j levels below a tile differs from the tile by no more than that bound taken at the
+# depth of the generation's parents.  The tolerance is 100 times that envelope (and never below the 1e-9 of the
+# enumerated levels): 6.6e-10 at depth 8, 1.1e-5 at 15, 4.3e-5 at 16, 2.7e-3 at 19.
+AREA_ENVELOPE = 1e-16
+AREA_MARGIN = 100.0
+
+
+def area_tol(n):
+    """Relative tolerance for 'the children of tiles at depth n add up'."""
+    return max(1e-9, AREA_MARGIN * AREA_ENVELOPE * 4.0 ** n)
+
+
+JVM_SMALL = ["-XX:TieredStopAtLevel=1"]      # short constant evaluations: do not spend CPU on the optimising compiler
+
+AREA_THM_CFG = """CONSTANTS
+ R = %(R)d
+ MaxDepth = %(D)d
+ K = 1
+"""
+
+
+def area_theorems(ctx, R, D):
+    """ToastArea's theorems where the lattice can be enumerated."""
+    mod = tla.module("MCToastAreaThm", ["ToastArea"], ["ASSUME T_RectIsUnits", "ASSUME T_ChainIsUnits", "ASSUME T_BandTouches", "ASSUME T_FoldLinesClosed"])
+    ctx.tlc("MCToastAreaThm", extra={"MCToastAreaThm.tla": mod}, cfg_text=AREA_THM_CFG % dict(R=R, D=D), workers=1, timeout=1200, count=False, jvm_opts=JVM_SMALL)
+
+
+def area_cases(ctx, R, nest_cases, chain_cases, w):
+    """Hand TLC the offsets; it returns the tiles near the fold lines with their children / generations, having checked
+    that the parts partition the whole on the lattice."""
+    outp = os.path.join(ctx.scratch, "toast-area-%d.json" % R)
+    defs = [
+        "NestCases == %s" % tla.lit([list(c) for c in nest_cases]),
+        "ChainCases == %s" % tla.lit([list(c) for c in chain_cases]),
+        "W == %d" % w,
+        "NestTable == [i \\in DOMAIN NestCases |-> LET c == NestCases[i] ps == NearFoldSeq(c[1], c[2], W) IN"
+        " [n |-> c[1], off |-> c[2], tiles |-> [j \\in DOMAIN ps |-> LET t == TileAt(ps[j]) d == Div4(t) IN"
+        " [pos |-> ps[j], touch |-> TouchesFold(t), kids |-> [m \\in 1..4 |-> d[m].pos]]]]]",
+        "ChainRoot(c) == NearFoldSeq(c[1], c[2], 1)[c[3]]",
+        "ChainTable == [i \\in DOMAIN ChainCases |-> LET c == ChainCases[i] t == TileAt(ChainRoot(c)) lv == Levels(t, c[4]) IN"
+        " [root |-> t.pos, touch |-> TouchesFold(t), levels |-> [j \\in DOMAIN lv |-> [m \\in DOMAIN lv[j] |-> lv[j][m].pos]]]]",
+        "ASSUME \\A i \\in DOMAIN NestCases : LET c == NestCases[i] ps == NearFoldSeq(c[1], c[2], W) IN \\A j \\in DOMAIN ps : ValidPos(ps[j]) /\\ NestsLocal(TileAt(ps[j]))",
+        "ASSUME \\A i \\in DOMAIN ChainCases : LET c == ChainCases[i] IN ValidPos(ChainRoot(c)) /\\ c[1] + c[4] <= R /\\ TouchesFold(TileAt(ChainRoot(c))) /\\ ChainNests(TileAt(ChainRoot(c)), c[4])",
+        "ASSUME JsonSerialize(IOEnv.OUT, [nest |-> NestTable, chain |-> ChainTable])",
+    ]
+    mod = tla.module("MCToastArea", ["ToastArea", "Json", "IOUtils"], defs)
+    ctx.tlc("MCToastArea", extra={"MCToastArea.tla": mod}, cfg_text=AREA_THM_CFG % dict(R=R, D=1), env={"OUT": outp}, workers=1, timeout=1200, count=False, jvm_opts=JVM_SMALL)
+    return json.load(open(outp))
+
+
+def _area(toast, tile):
+    a = float(toast.toast_tile_area(tile))
+    return a if np.isfinite(a) else float("nan")
+
+
+def _rel(parts, whole):
+    if not (whole > 0) or not np.isfinite(parts):
+        return float("inf")
+    return abs(parts - whole) / whole
+
+
+def _two_branches(tile):
+    lons = [float(c[0]) for c in tile.corners]
+    return max(lons) - min(lons) > np.pi
+
+
+def deep_area_start(ctx, adepth):
+    """Draw the inputs and start ToastArea's two TLC runs (constant evaluation, one worker each) next to the main run."""
+    from concurrent.futures import ThreadPoolExecutor
+    q = ctx.quick
+    W = 2
+    G = 5                              # generations in a chain: 4^5 = 1024 descendants
+    nmax = 19 if q else 21             # deepest parents (their children: depth 20 / 22)
+    R = nmax + 1
+    # inputs (Python picks offsets along the lines, one in each half of the square per depth; TLC makes the tiles)
+    nest_cases = []
+    for n in range(max(adepth, 3), nmax + 1):
+        h = 2 ** (n - 1)
+        for _rep in range(1 if q else 6):
+            nest_cases.append((n, ctx.rng.randrange(h)))
+            nest_cases.append((n, h + ctx.rng.randrange(h)))
+    strata = [(idx, half) for idx in range(1, 9) for half in (0, 1)]      # which line and side, which half of it
+    ctx.rng.shuffle(strata)
+    chain_cases = []
+    for idx, half in (strata if q else strata + strata):
+        n = ctx.rng.randint(max(adepth, 9), nmax + 1 - G)          # leaves at depth 14 .. 20 / 22
+        h = 2 ** (n - 1)
+        chain_cases.append((n, half * h + ctx.rng.randrange(h), idx, G))
+    pool = ThreadPoolExecutor(2)
+    f_thm = pool.submit(area_theorems, ctx, 4 if q else 5, 3)
+    f_tab = pool.submit(area_cases, ctx, R, nest_cases, chain_cases, W)
+    pool.shutdown(wait=False)
+    return f_thm, f_tab
+
+
+def deep_areas(ctx, toast, Pos, started, worst):
+    """Nesting of areas for tiles TLC picks next to the fold lines, from the enumerated depth down to depth 20 / 22."""
+    started[0].result()
+    tab = started[1].result()
+    csl = toastlat.coordsystems()
+    stats = {"tiles": 0, "touching_a_fold_line": 0, "corners_on_two_longitude_branches": 0, "chains": 0, "chain_tiles": 0, "deepest_tile": 0}
+    wd = {}
+    # ---- four children add up to their parent
+    for ci, case in enumerate(tab["nest"]):
+        n = case["n"]
+        tol = area_tol(n)
+        for ti, rec in enumerate(case["tiles"]):
+            pos = tuple(rec["pos"])
+            kpos = [tuple(k) for k in rec["kids"]]
+            for csname, cs in csl:
+                parent = toast.create_single_tile(Pos(*pos), coordsys=cs)
+                if (ci + ti) % 2 == 0:
+                    kids = list(toast._div4(parent))
+                    if [tuple(k.pos) for k in kids] != kpos:
+                        ctx.violation("C04:div4:order", "children of %s [%s] are %s, expected %s" % (pos, csname, [tuple(k.pos) for k in kids], kpos), {"pos": pos, "cs": csname})
+                        continue
+                else:
+                    kids = [toast.create_single_tile(Pos(*k), coordsys=cs) for k in kpos]
+                a = _area(toast, parent)
+                s = sum(_area(toast, k) for k in kids)
+                rel = _rel(s, a)
+                ctx.count(5)
+                ctx.trace_ok()
+                ctx.distinct((csname, pos, "area"))
+                stats["tiles"] += 1
+                stats["touching_a_fold_line"] += bool(rec["touch"])
+                stats["corners_on_two_longitude_branches"] += any(_two_branches(k) for k in kids + [parent])
+                stats["deepest_tile"] = max(stats["deepest_tile"], n + 1)
+                if np.isfinite(rel):
+                    wd[n] = max(wd.get(n, 0.0), rel)
+                if rel > tol:
+                    ctx.violation("C04:area:deep-nesting", "tile %s [%s]: area %.9e but its four children sum to %.9e (relative difference %.2e; the formula's own "
+                                  "rounding at this depth stays below %.1e, tolerance %.1e)" % (pos, csname, a, s, rel, AREA_ENVELOPE * 4.0 ** n, tol),
+                                  {"pos": pos, "cs": csname, "children": kpos, "touches_fold_line": rec["touch"]})
+    # ---- generations: the 4, 16, ... 1024 descendants of a tile add up to it, and every tile on the way to its children
+    for case in tab["chain"]:
+        root = tuple(case["root"])
+        n = root[0]
+        for csname, cs in csl:
+            gens = [[toast.create_single_tile(Pos(*root), coordsys=cs)]]
+            ok = True
+            for j in range(1, len(case["levels"])):
+                nxt = [kid for t_ in gens[-1] for kid in toast._div4(t_)]
+                if [tuple(k.pos) for k in nxt] != [tuple(p_) for p_ in case["levels"][j]]:
+                    ctx.violation("C04:div4:order", "generation %d below %s [%s] is not the expected sequence of positions" % (j, root, csname), {"pos": root, "cs": csname, "generation": j})
+                    ok = False
+                    break
+                gens.append(nxt)
+            if not ok:
+                continue
+            areas = [[_area(toast, t_) for t_ in g] for g in gens]
+            ctx.count(sum(len(g) for g in gens))
+            ctx.trace_ok()
+            stats["chains"] += 1
+            stats["chain_tiles"] += sum(len(g) for g in gens)
+            stats["corners_on_two_longitude_branches"] += sum(_two_branches(t_) for g in gens for t_ in g)
+            stats["deepest_tile"] = max(stats["deepest_tile"], n + len(gens) - 1)
+            a0 = areas[0][0]
+            for j in range(1, len(gens)):
+                tol = area_tol(n + j - 1)
+                rel = _rel(sum(areas[j]), a0)
+                if np.isfinite(rel):
+                    wd[n + j - 1] = max(wd.get(n + j - 1, 0.0), rel)
+                if rel > tol:
+                    ctx.violation("C04:area:deep-generations", "tile %s [%s]: area %.9e but the %d tiles %d levels below it sum to %.9e (relative difference %.2e, tolerance %.1e)"
+                                  % (root, csname, a0, len(gens[j]), j, sum(areas[j]), rel, tol), {"pos": root, "cs": csname, "generation": j})
+                    break
+            bad = None
+            for j in range(len(gens) - 1):
+                tol = area_tol(n + j)
+                for i, t_ in enumerate(gens[j]):
+                    rel = _rel(sum(areas[j + 1][4 * i: 4 * i + 4]), areas[j][i])
+                    if np.isfinite(rel):
+                        wd[n + j] = max(wd.get(n + j, 0.0), rel)
+                    if rel > tol and bad is None:
+                        bad = (tuple(t_.pos), areas[j][i], sum(areas[j + 1][4 * i: 4 * i + 4]), rel, tol)
+            if bad is not None:
+                ctx.violation("C04:area:deep-nesting", "tile %s [%s] (a descendant of %s): area %.9e but its four children sum to %.9e (relative difference %.2e, tolerance %.1e)"
+                              % (bad[0], csname, root, bad[1], bad[2], bad[3], bad[4]), {"pos": bad[0], "cs": csname, "root": root})
+    ctx.note("deep_area", stats)
+    ctx.note("deep_area_worst_relative_difference_by_parent_depth", {str(k): float("%.3g" % v) for k, v in sorted(wd.items())})
+    ctx.note("deep_area_tolerance", "children vs parent at depth n: max(1e-9, %g x %g x 4^n) - %g x the measured rounding envelope of toast_tile_area's arccos formula "
+             "(<= 0.94e-16 x 4^n over 80 000 tiles at depths 4..22 on the unchanged code); a generation j levels below a tile at depth n: the same at n + j - 1"
+             % (AREA_MARGIN, AREA_ENVELOPE, AREA_MARGIN))
+    if tab["nest"]:
+        c0 = tab["nest"][-1]
+        ctx.sample({"deep_area_case": {"depth": c0["n"], "offset": c0["off"], "tile": c0["tiles"][4]["pos"], "touches_fold_line": c0["tiles"][4]["touch"], "children": c0["tiles"][4]["kids"]}})
+    worst["area_deep_vs_tolerance"] = max([v / area_tol(k) for k, v in wd.items()] or [0.0])
 
 
 def run(ctx):
@@ -24,8 +226,12 @@ def run(ctx):
     from toasty.pyramid import Pos, Pyramid
     q = ctx.quick
     ctx.rule = ("every tile position to the stated depth, both coordinate systems, four construction routes; TLC enumerates the lattice, checks the theorems and "
-                "emits tiles/Def/anchors; distinct = distinct (coordinate system, position); non-trivial = every tile (each has 4 corners compared)")
+                "emits tiles/Def/anchors; distinct = distinct (coordinate system, position); non-trivial = every tile (each has 4 corners compared); areas below the "
+                "enumerated depth: Python draws one offset per half of the square and depth, TLC (ToastArea) makes the tiles within two tiles of the fold lines, their children "
+                "and generations, and checks that the parts partition the whole on the lattice")
     R, D, K = (5, 3, 1) if q else (6, 4, 1)
+    adepth = 4 if q else 6             # whole levels are summed to here; single tiles' parts from here down
+    started = deep_area_start(ctx, adepth)
     t = toastlat.run_tlc(ctx, R, D, K)
     ctx.note("def_points_validated", t.ndef)
     deep = 5 if q else 7
@@ -134,7 +340,6 @@ def run(ctx):
         pyramids.append((csname, "subpyramid of a filtered", "C04:route:pyramid-subpyramid", Pyramid.new_toast_filtered(pd, lambda t_: True, coordsys=cs).subpyramid(Pos(1, 0, 1))))
         pyramids.append((csname, "plain", "C04:route:pyramid", Pyramid.new_toast(pd, coordsys=cs)))
         # ---- areas: each level sums to the sphere, each parent equals the sum of its children
-        adepth = 4 if q else 6
         areas = {}
         for pos, tile in real.items():
             if pos[0] <= adepth:
@@ -153,6 +358,8 @@ def run(ctx):
                 worst["area"] = max(worst["area"], rel)
                 if rel > 1e-9:
                     ctx.violation("C04:area:nesting", "tile %s [%s]: area %.6e but its children sum to %.6e" % (pos, csname, a, s), {"pos": pos, "cs": csname})
+    # ---- areas below the enumerated depth (spec/ToastArea.tla): tiles chosen on the lattice next to the fold lines
+    deep_areas(ctx, toast, Pos, started, worst)
     # ---- the Pyramid objects constructed above, enumerated now (generator and leaf visit), newest first and oldest first
     for order in (list(reversed(pyramids)), pyramids):
         for csname, label, key, pyr in order:
@@ -292,4 +499,6 @@ def run(ctx):
     ctx.sample({"def_table_entry": t.defs[len(t.defs) // 3]})
     ctx.assume("normalize(a + b) is the great-circle midpoint of two unit vectors (the only numeric primitive connecting the lattice to the sphere)")
     ctx.assume("lib/lattice.def_pair is validated against TLC's Def table for the whole lattice at refinement R on every run and used in closed form deeper")
-    ctx.assume("area clause: toast_tile_area's own arccos-based formula loses digits beyond depth ~7, so areas are summed to depth 6 only")
+    ctx.assume("area clause: whole levels are summed against 4 pi to depth 4 (quick) / 6 (thorough) only (4^n tiles); below that the parts of single tiles are summed "
+               "(children, and generations to 1024 descendants) for tiles TLC picks next to the fold lines, to depth 20 / 22, with a tolerance that follows the measured "
+               "rounding of toast_tile_area's arccos-based formula (fourfold per level; see deep_area_tolerance) - beyond depth ~22 that formula has no digits left")
